@@ -262,6 +262,7 @@ typedef struct ep
     int cbmode;         /* 0 none, 1 strict (return alert), 2 permissive (return 0) */
     int cbcalls;
     int cbalert;
+    int tam_msg, tam_mode, tam_off, tam_val, tam_slot, tam_done;   /* armed one-shot tamper of an outgoing handshake message */
     int autoflush;
     sb_t sub;           /* internal events during the current command */
     sb_t dlv;           /* deliveries during the current command */
@@ -347,6 +348,45 @@ static int rec_hdrlen(ep_t *e) { return e->dtls ? 13 : 5; }
 /* verification hook: internal events of the endpoint whose call is in progress */
 
 static void (*g_tamper)(ep_t *e, int type, int hs, unsigned char *p, long n);
+
+/* A deviant peer: rewrite one of its own handshake messages just before the record is sealed (for TLS <= 1.2
+   that is also before the sender hashes it into its transcript, so only the receiver's signature check stands
+   between the rewritten message and completion).  Modes: 1 xor byte at tam_off (negative: from the end of the
+   message) with tam_val; 2 overwrite the 2-byte SignatureScheme field; 3 save the message in a slot;
+   4 substitute the message saved in a slot (same length only). */
+static unsigned char g_slot[8][4096];
+static long g_slotn[8];
+static void tamper_apply(ep_t *e, int type, int hs, unsigned char *p, long n)
+{
+    int hdr = e->dtls ? 12 : 4;
+    long off = -1;
+    int applied = 0;
+    if (type != 22 || !e->tam_mode || e->tam_done || hs != e->tam_msg || n < hdr + 1) return;
+    if (USING_TLS_1_3(e->ssl)) n -= 1;      /* inner content type */
+    switch (e->tam_mode)
+    {
+    case 1:
+        off = e->tam_off >= 0 ? hdr + e->tam_off : n + e->tam_off;
+        if (off >= hdr && off < n) { p[off] ^= (unsigned char) e->tam_val; applied = 1; }
+        break;
+    case 2:
+        if (hs == 15) off = hdr;
+        else if (hs == 12 && n > hdr + 4 && p[hdr] == 3) off = hdr + 4 + p[hdr + 3];     /* ECDHE params: type, curve(2), len, point */
+        if (off >= hdr && off + 2 <= n) { p[off] = (unsigned char) (e->tam_val >> 8); p[off + 1] = (unsigned char) e->tam_val; applied = 1; }
+        break;
+    case 3:
+        if (n <= (long) sizeof(g_slot[0])) { memcpy(g_slot[e->tam_slot & 7], p, n); g_slotn[e->tam_slot & 7] = n; applied = 1; }
+        break;
+    case 4:
+        if (g_slotn[e->tam_slot & 7] == n && memcmp(g_slot[e->tam_slot & 7] + hdr, p + hdr, n - hdr) != 0)
+        {
+            /* keep this handshake's own message header (DTLS message_seq) */
+            memcpy(p + hdr, g_slot[e->tam_slot & 7] + hdr, n - hdr); applied = 1;
+        }
+        break;
+    }
+    e->tam_done = applied ? 1 : -1;
+}
 
 static uint32_t fnv(uint32_t h, const unsigned char *p, int n)
 {
@@ -467,6 +507,7 @@ static void verif_hook(int ev, void *ssl, long a, long b, void *p, long n)
             }
         }
         if (g_tamper) g_tamper(e, type, (int) b, p, n);
+        if (e->tam_mode && !e->tam_done) { tamper_apply(e, type, (int) b, p, n); if (e->tam_done) sb_printf(&e->sub, ",{\"k\":\"T\",\"t\":\"%d\",\"x\":%d,\"n\":%d,\"q\":0,\"qh\":0,\"w\":0,\"bs\":0}", e->tam_msg, e->tam_done, e->tam_mode); }
         break;
     }
     default:
@@ -505,7 +546,7 @@ static int32_t cert_cb(ssl_t *ssl, psX509Cert_t *cert, int32_t alert)
     if (!e) return alert;
     e->cbcalls++;
     e->cbalert = alert;
-    sb_printf(&e->sub, "%s{\"k\":\"CB\",\"t\":\"%d\",\"x\":%d,\"n\":0,\"q\":0,\"qh\":0,\"w\":0,\"bs\":0}", e->sub.n ? "," : "", alert, e->cbmode);
+    sb_printf(&e->sub, "%s{\"k\":\"CB\",\"t\":\"%d\",\"x\":%d,\"n\":%d,\"q\":0,\"qh\":0,\"w\":0,\"bs\":0}", e->sub.n ? "," : "", alert, e->cbmode, alert);
     if (e->cbmode == 2) return 0;            /* permissive: accept this failure */
     return alert;                            /* strict: keep the library's verdict */
 }
@@ -1031,6 +1072,16 @@ static void cmd_keys(char **tok, int ntok)
         else if (v && !strcmp(v, "rsa")) lo.key_type = PS_RSA;
         if (opt_int(tok, ntok, "allowexpired", 0)) lo.flags |= LOAD_KEYS_OPT_ALLOW_OUT_OF_DATE_CERT_PARSE;
         rc = matrixSslLoadKeys(ks->keys, id ? cert : NULL, id ? key : NULL, NULL, ca, &lo);
+        v = opt_get(tok, ntok, "swapcert");
+        if (v && rc >= 0 && ks->keys->identity)
+        {
+            /* a deviant prover: present this chain instead of the one the key pair was loaded with (the
+               loader refuses chains that do not validate, a peer written by somebody else would not) */
+            psX509Cert_t *c = NULL;
+            int32 prc = psX509ParseCertFile(NULL, v, &c, CERT_STORE_UNPARSED_BUFFER | CERT_STORE_DN_BUFFER);
+            if (prc < 0 || c == NULL) { if (c) psX509FreeCert(c); rc = -9000 + prc; }
+            else { psX509FreeCert(ks->keys->identity->cert); ks->keys->identity->cert = c; }
+        }
     }
     v = opt_get(tok, ntok, "psk");
     if (v && rc >= 0)
@@ -1834,6 +1885,21 @@ static void run_line(char *line)
         if (setjmp(g_skip) == 0) cmd_hsedit(tok, ntok);
         g_skip_armed = 0;
     }
+    else if (!strcmp(tok[0], "tamper"))
+    {
+        /* tamper <ep> <hsmsg> flip <off> <xor> | alg <hex> | save <slot> | subst <slot> */
+        ep_t *e = ep_get(tok[1]);
+        if (ntok < 4) die("tamper <ep> <hsmsg> <mode> ...");
+        e->tam_msg = atoi(tok[2]); e->tam_done = 0;
+        if (!strcmp(tok[3], "flip")) { e->tam_mode = 1; e->tam_off = ntok > 4 ? atoi(tok[4]) : -1; e->tam_val = ntok > 5 ? (int) strtol(tok[5], NULL, 0) : 1; }
+        else if (!strcmp(tok[3], "alg")) { e->tam_mode = 2; e->tam_val = ntok > 4 ? (int) strtol(tok[4], NULL, 0) : 0x0201; }
+        else if (!strcmp(tok[3], "save")) { e->tam_mode = 3; e->tam_slot = ntok > 4 ? atoi(tok[4]) : 0; }
+        else if (!strcmp(tok[3], "subst")) { e->tam_mode = 4; e->tam_slot = ntok > 4 ? atoi(tok[4]) : 0; }
+        else die("unknown tamper mode %s", tok[3]);
+        emit_begin(&g_out, "tamper", e);
+        sb_printf(&g_out, ",\"msg\":%d,\"mode\":%d", e->tam_msg, e->tam_mode);
+        emit_end(&g_out);
+    }
     else if (!strcmp(tok[0], "mark")) { emit_begin(&g_out, "mark", NULL); sb_printf(&g_out, ",\"tag\":\"%s\"", ntok > 1 ? tok[1] : ""); emit_end(&g_out); }
     else if (!strcmp(tok[0], "reset"))
     {
@@ -1842,6 +1908,7 @@ static void run_line(char *line)
         for (i = 0; i < MAXSID; i++) { if (g_sids[i].used) { matrixSslDeleteSessionId(g_sids[i].sid); g_sids[i].used = 0; } }
         for (i = 0; i < MAXKEYS; i++) { if (g_keys[i].used) { matrixSslDeleteKeys(g_keys[i].keys); g_keys[i].used = 0; } }
         matrixSslClose();
+        memset(g_slotn, 0, sizeof(g_slotn));
         g_now = 1790000000L; g_usec = 0; g_rng = 0x9e3779b97f4a7c15ULL;
         if (matrixSslOpen() < 0) die("matrixSslOpen failed");
         emit_begin(&g_out, "Reset", NULL);
